@@ -378,3 +378,139 @@ def numeric_equal(a, b, conc, npts=3, tol=1e-9):
     finally:
         mpmath.mp.dps = old
     return True, {"worst_rel": worst}
+
+
+# --------------------------------------------------------------------------- family-relative serialisation (C05, mixed chains)
+# Additions only: nothing above is changed.  A derivative chain that mixes the physical (dx,dy,dz) and the logical
+# (dx1,dx2,dx3) operators is read RELATIVE to one family `fam` (False = physical, True = logical): the outermost run of
+# operators is kept as the multi-index of the atom when it belongs to `fam`; everything below it (inner runs of the other
+# family, possibly nested further) is OPAQUE and becomes part of the field name:
+#     dx(dx2(u))  seen from the physical family -> field "u@L010",      al = [1]
+#     dx(dx2(u))  seen from the logical family  -> field "u@L010@P100", al = []
+# name = function name + one "@" + ("P"|"L") + digits-of-the-multi-index suffix per inner run, innermost first.
+def _chain_runs(expr):
+    """expr = d..(d..(atom)) -> (atom, runs); runs = [(lg, al), ...] maximal runs of one family, outermost first."""
+    from sympde.topology.derivatives import _partial_derivatives, _logical_partial_derivatives
+    runs = []
+    while isinstance(expr, _partial_derivatives + _logical_partial_derivatives):
+        this_lg = isinstance(expr, _logical_partial_derivatives)
+        if not runs or runs[-1][0] != this_lg:
+            runs.append((this_lg, [0, 0, 0]))
+        runs[-1][1][expr.grad_index] += 1
+        if len(expr.args) != 1:
+            raise Unsupported("derivative arity")
+        expr = expr.args[0]
+    return expr, runs
+
+
+def _run_suffix(lg, al):
+    digits = "".join(str(n) for n in al) if all(n < 10 for n in al) else ".".join(str(n) for n in al)
+    return "@" + ("L" if lg else "P") + digits
+
+
+def opaque_name(name, inner):
+    """inner = runs below the kept one, outermost first -> suffixes innermost first"""
+    return name + "".join(_run_suffix(lg, al) for lg, al in reversed(inner))
+
+
+def ser_atom_rel(expr, fam):
+    """like ser_atom, but mixed chains are accepted and read relative to the family `fam`"""
+    from sympde.topology.space import ScalarFunction, VectorFunction, IndexedVectorFunction
+    from sympde.calculus.core import minus, plus
+    from sympde.core.basic import Constant, BasicMapping
+    from sympy import Indexed
+    fam = bool(fam)
+    base, runs = _chain_runs(expr)
+    side = "0"
+    if isinstance(base, (minus, plus)):
+        side = "-" if isinstance(base, minus) else "+"
+        base = base.args[0]
+        inner, runs2 = _chain_runs(base)
+        if runs2:
+            raise Unsupported("restriction of a derivative")
+    if runs and runs[0][0] == fam:
+        al, inner = _trim(runs[0][1]), runs[1:]
+    else:
+        al, inner = [], runs
+    lg = fam if al else False          # as ser_atom: an atom without derivatives carries lg = False
+    if isinstance(base, ScalarFunction):
+        return {"k": "at", "t": "fld", "lg": lg, "f": opaque_name(base.name, inner), "c": 0, "s": side, "al": al}
+    if isinstance(base, IndexedVectorFunction):
+        idx = base.indices
+        if len(idx) != 1:
+            raise Unsupported("multi-index component")
+        return {"k": "at", "t": "fld", "lg": lg, "f": opaque_name(base.base.name, inner), "c": int(idx[0]) + 1,
+                "s": side, "al": al}
+    if isinstance(base, Indexed) and isinstance(base.base, BasicMapping):
+        if inner or (runs and not fam):
+            raise Unsupported("physical derivative of a mapping component")
+        return {"k": "at", "t": "map", "m": base.base.name, "i": int(base.indices[0]), "al": al}
+    if runs:
+        raise Unsupported("derivative of %s" % type(base).__name__)
+    return ser_atom(base)
+
+
+def ser_sx_rel(expr, fam):
+    """ser_sx with every derivative chain read relative to the family `fam` (see above).  On expressions without
+    mixed chains whose derivatives all belong to `fam` it returns exactly ser_sx(expr)."""
+    from sympde.topology.derivatives import DifferentialOperator
+    from sympde.calculus.core import minus, plus
+    expr = sp.sympify(expr)
+    if isinstance(expr, Integer):
+        return _num(expr)
+    if isinstance(expr, Rational):
+        return _num(expr.p, expr.q)
+    if isinstance(expr, sp.Float):
+        raise Unsupported("float literal")
+    if isinstance(expr, (DifferentialOperator, minus, plus)):
+        return ser_atom_rel(expr, fam)
+    if isinstance(expr, (Symbol, sp.Indexed)):
+        return ser_atom_rel(expr, fam)
+    if isinstance(expr, Add):
+        return {"k": "add", "a": [ser_sx_rel(a, fam) for a in expr.args]}
+    if isinstance(expr, Mul):
+        return {"k": "mul", "a": [ser_sx_rel(a, fam) for a in expr.args]}
+    if isinstance(expr, Pow):
+        b, e = expr.base, expr.exp
+        rest, n = _split_exponent(e)
+        if rest == 0:
+            return {"k": "pow", "b": ser_sx_rel(b, fam), "e": _num(n)}
+        gen = {"k": "pow", "b": ser_sx_rel(b, fam), "e": ser_sx_rel(rest, fam)}
+        if n == 0:
+            return gen
+        return {"k": "mul", "a": [gen, {"k": "pow", "b": ser_sx_rel(b, fam), "e": _num(n)}]}
+    for name, f in FN.items():
+        if isinstance(expr, f):
+            return {"k": "fn", "f": name, "a": ser_sx_rel(expr.args[0], fam)}
+    raise Unsupported("node %s" % type(expr).__name__)
+
+
+def other_family_atoms(j, fam):
+    """atoms of a family-relative tree that a derivative of the family `fam` cannot be applied to in the model:
+    coordinates of the other family, mapping components seen from the physical family"""
+    k = j["k"]
+    if k == "at":
+        if j["t"] == "coord" and bool(j["lg"]) != bool(fam):
+            return True
+        if j["t"] == "map" and not fam:
+            return True
+        return False
+    if k in ("add", "mul"):
+        return any(other_family_atoms(a, fam) for a in j["a"])
+    if k == "pow":
+        return other_family_atoms(j["b"], fam) or other_family_atoms(j["e"], fam)
+    if k == "fn":
+        return other_family_atoms(j["a"], fam)
+    return False
+
+
+def split_blocks(ops):
+    """ops = [[lg,i]..] outermost first -> maximal one-family blocks in the order of application (innermost first):
+    [(fam, [[lg,i]..] outermost first within the block), ...]"""
+    blocks = []
+    for lg, i in reversed(ops):
+        lg = bool(lg)
+        if not blocks or blocks[-1][0] != lg:
+            blocks.append((lg, []))
+        blocks[-1][1].insert(0, [lg, i])
+    return blocks
